@@ -411,3 +411,203 @@ def rule_set_covers(ctx: RuleContext, p: Program, rid: str) -> None:
                       note=f'{len(writes)} writes')
     if n < 2:
         raise AnalysisError(f'SET-COVERS: only {n} delegating value properties found (NumberExpr, Tolerance confirmed)')
+
+
+# ====================================================================== EQ-SHAPE (C20)
+def _seq_kind(e: ast.AST, env: dict[str, str], cls_fields: set[str], depth: int = 0) -> str:
+    """'tuple' | 'list' | '?' -- the container type an expression evaluates to"""
+    if depth > 6:
+        return '?'
+    if isinstance(e, ast.Tuple):
+        return 'tuple'
+    if isinstance(e, (ast.List, ast.ListComp)):
+        return 'list'
+    if isinstance(e, ast.Call):
+        f = norm(e.func)
+        if f == 'tuple':
+            return 'tuple'
+        if f in ('list', 'sorted'):
+            return 'list'
+        if f in ('cast', 'typing.cast') and len(e.args) == 2:
+            return _seq_kind(e.args[1], env, cls_fields, depth + 1)      # cast() converts nothing
+        return '?'
+    if isinstance(e, ast.Name):
+        return env.get(e.id, '?')
+    if isinstance(e, ast.Attribute) and (e.attr in cls_fields or '_' + e.attr in cls_fields):
+        return 'tuple'                  # the invariant under proof (induction over writers): every writer of the field stores a tuple
+    if isinstance(e, ast.Subscript) and isinstance(e.slice, ast.Slice):
+        return _seq_kind(e.value, env, cls_fields, depth + 1)
+    if isinstance(e, ast.BinOp) and isinstance(e.op, ast.Add):
+        a, b = _seq_kind(e.left, env, cls_fields, depth + 1), _seq_kind(e.right, env, cls_fields, depth + 1)
+        return a if a == b else '?'
+    if isinstance(e, ast.IfExp):
+        a, b = _seq_kind(e.body, env, cls_fields, depth + 1), _seq_kind(e.orelse, env, cls_fields, depth + 1)
+        return a if a == b else '?'
+    return '?'
+
+
+def _kind_env(fn: ast.AST) -> dict[str, str]:
+    env: dict[str, str] = {}
+    a = fn.args  # type: ignore[attr-defined]
+    for x in [*a.posonlyargs, *a.args, *a.kwonlyargs]:
+        if x.annotation is not None:
+            an = norm(x.annotation)
+            if an.startswith(('tuple[', 'Tuple[')):
+                env[x.arg] = 'tuple'
+            elif an.startswith(('list[', 'List[')):
+                env[x.arg] = 'list'
+    if a.vararg is not None:
+        env[a.vararg.arg] = 'tuple'
+    counts: dict[str, int] = {}
+    for st in walk_no_nested(fn):
+        if isinstance(st, ast.Assign) and len(st.targets) == 1 and isinstance(st.targets[0], ast.Name):
+            counts[st.targets[0].id] = counts.get(st.targets[0].id, 0) + 1
+    for st in walk_no_nested(fn):
+        if isinstance(st, ast.Assign) and len(st.targets) == 1 and isinstance(st.targets[0], ast.Name) and counts[st.targets[0].id] == 1 \
+                and st.targets[0].id not in env:
+            env[st.targets[0].id] = _seq_kind(st.value, env, set())
+    return env
+
+
+def rule_eq_shape(ctx: RuleContext, p: Program, rid: str) -> None:
+    ctx.rule(rid, 'sequence-valued fields that a hand-written _eq compares with == (self._f == other._f) always hold the same container '
+                  'type: every writer -- each constructor call site in the package (Cls(..), cls(..), type(self)(..)) for the parameter the '
+                  'field is initialised from, and each assignment to the field -- stores a tuple (tuple display, tuple(..), a tuple-annotated '
+                  'or *args name, a slice or concatenation of those, cast() of those); a list there makes the model unequal to its own '
+                  'deep copy and to a fresh parse of its text, because [x] != (x,)')
+    n_sites = 0
+    n_cls = 0
+    for m in p.modules.values():
+        if not m.name.startswith('autobean_refactor.models') or '.generated' in m.name:
+            continue
+        for c in m.classes:
+            eq = c.attrs.get('_eq')
+            init = c.attrs.get('__init__')
+            if not isinstance(eq, FuncInfo) or not isinstance(init, FuncInfo):
+                continue
+            compared = set()
+            for x in ast.walk(eq.node):
+                if isinstance(x, ast.Compare) and len(x.ops) == 1 and isinstance(x.ops[0], ast.Eq):
+                    l, r = x.left, x.comparators[0]
+                    if isinstance(l, ast.Attribute) and isinstance(r, ast.Attribute) and l.attr == r.attr and norm(l.value) == 'self':
+                        compared.add(l.attr)
+            # fields initialised from a tuple-annotated parameter
+            ann = {a.arg: norm(a.annotation) for a in init.node.args.args if a.annotation is not None}
+            field_param: dict[str, str] = {}
+            for st in walk_no_nested(init.node):
+                if isinstance(st, ast.Assign) and len(st.targets) == 1 and isinstance(st.targets[0], ast.Attribute) \
+                        and norm(st.targets[0].value) == 'self' and st.targets[0].attr in compared and isinstance(st.value, ast.Name) \
+                        and ann.get(st.value.id, '').startswith(('tuple[', 'Tuple[')):
+                    field_param[st.targets[0].attr] = st.value.id
+            if not field_param:
+                continue
+            n_cls += 1
+            params = [a.arg for a in init.node.args.args][1:]
+            fields = set(field_param)
+            problems: list[tuple[str, str]] = []
+            # call sites
+            for m2 in p.modules.values():
+                if m2.name.endswith('_test') or not m2.name.startswith('autobean_refactor'):
+                    continue
+                for fn in p.functions_in(m2):
+                    env = None
+                    for call in walk_no_nested(fn.node):
+                        if not isinstance(call, ast.Call):
+                            continue
+                        f = norm(call.func)
+                        same_cls = fn.cls is not None and c in fn.cls.mro
+                        if not (f == c.name or f.endswith('.' + c.name) or (same_cls and f in ('cls', 'type(self)', 'self.__class__'))):
+                            continue
+                        if env is None:
+                            env = _kind_env(fn.node)
+                        bound = dict(zip(params, call.args))
+                        bound.update({k.arg: k.value for k in call.keywords if k.arg})
+                        for fld, prm in field_param.items():
+                            if prm not in bound:
+                                continue
+                            n_sites += 1
+                            k = _seq_kind(bound[prm], env, fields)
+                            if k == 'list':
+                                problems.append((f'{_short(m2)}:{fn.qualname}', f'`{norm(call)[:80]}` passes a list for `{prm}` (stored in {fld})'))
+                            elif k == '?':
+                                raise AnalysisError(f'EQ-SHAPE: cannot tell the container type of `{norm(bound[prm])[:60]}` in {fn.qualname}')
+            # other writers of the field
+            for fn in c.methods():
+                if fn is init:
+                    continue
+                env = None
+                for st in walk_no_nested(fn.node):
+                    if isinstance(st, ast.Assign):
+                        for t in st.targets:
+                            if isinstance(t, ast.Attribute) and norm(t.value) == 'self' and t.attr in fields:
+                                if env is None:
+                                    env = _kind_env(fn.node)
+                                n_sites += 1
+                                k = _seq_kind(st.value, env, fields)
+                                if k == 'list':
+                                    problems.append((f'{_short(m)}:{fn.qualname}', f'`{norm(st)[:80]}` stores a list in {t.attr}'))
+                                elif k == '?':
+                                    raise AnalysisError(f'EQ-SHAPE: cannot tell the container type of `{norm(st.value)[:60]}` in {fn.qualname}')
+            site = f'{_short(m)}:{c.name}._eq'
+            if problems:
+                for where_fn, msg in problems[:3]:
+                    ctx.fail(rid, site, where_fn, f'{msg}: {c.name}._eq compares the field with ==, every other producer (parser, clone, '
+                                                  f'_reattach) stores a tuple, and a list never equals a tuple -- the model stops being equal to its '
+                                                  f'deep copy and to the parse of its own text', eq.where)
+            else:
+                ctx.ok(rid, site, f'{sorted(fields)}: every writer stores a tuple')
+    if n_cls < 2 or n_sites < 12:
+        raise AnalysisError(f'EQ-SHAPE: only {n_cls} classes / {n_sites} writer sites found (NumberAddExpr, NumberMulExpr confirmed)')
+
+
+# ====================================================================== REPLACE-STORE (C05 / C11)
+def rule_replace_store(ctx: RuleContext, p: Program, rid: str) -> None:
+    ctx.rule(rid, 'every property setter that swaps a node in the token store with replace_node(old, new) then records the NEW node in the '
+                  'model: the next `<field>.__set__(instance, X)` in the same block has X == new (all four sibling setters -- required, '
+                  'optional, repeated, repeated with interleaving comments -- agree); a field left pointing at the removed node makes the '
+                  'tree disagree with the store (its tokens are in no store: spans cannot be walked, deep copies fail)')
+    n = 0
+    for m in p.modules.values():
+        if not m.name.startswith('autobean_refactor.models.internal'):
+            continue
+        for fn in p.functions_in(m):
+            found: list[tuple[ast.Call, list[ast.stmt]]] = []
+
+            def scan(stmts: list[ast.stmt], after: list[ast.stmt]) -> None:
+                for i, st in enumerate(stmts):
+                    rest = stmts[i + 1:] + after
+                    if isinstance(st, ast.Expr) and isinstance(st.value, ast.Call) and norm(st.value.func).split('.')[-1] == 'replace_node' \
+                            and len(st.value.args) == 2:
+                        found.append((st.value, rest))
+                    if isinstance(st, (ast.FunctionDef, ast.AsyncFunctionDef, ast.ClassDef)):
+                        continue
+                    for attr in ('body', 'orelse', 'finalbody'):
+                        sub = getattr(st, attr, None)
+                        if isinstance(sub, list) and sub and isinstance(sub[0], ast.stmt):
+                            scan(sub, [] if isinstance(st, (ast.For, ast.While, ast.AsyncFor)) else rest)
+                    for h in getattr(st, 'handlers', []) or []:
+                        scan(h.body, rest)
+            scan(fn.node.body, [])
+            for call, rest in found:
+                old, new = norm(call.args[0]), norm(call.args[1])
+                store = None
+                for nx in rest:
+                    for c in ast.walk(nx):
+                        if isinstance(c, ast.Call) and isinstance(c.func, ast.Attribute) and c.func.attr == '__set__' and len(c.args) == 2:
+                            store = c
+                            break
+                    if store is not None:
+                        break
+                n += 1
+                site = f'{_short(m)}:{fn.qualname}'
+                if store is None:
+                    ctx.fail(rid, site, f'replace_node({old}, {new})', f'after replace_node({old}, {new}) the field is never updated: it keeps '
+                             f'pointing at the removed node', fn.where)
+                    continue
+                got = norm(store.args[1])
+                ctx.check(got == new, rid, site, f'replace_node({old}, {new}) then store',
+                          f'after replace_node({old}, {new}) the field is set to `{got}`, not to the node that was spliced in (`{new}`): the model '
+                          f'keeps a node whose tokens are no longer in the store -- printing looks right (the cached wrapper is the new one) but '
+                          f'walking or deep-copying the model fails', f'{m.relpath}:{store.lineno}', note=f'__set__(.., {got})')
+    if n < 4:
+        raise AnalysisError(f'REPLACE-STORE: only {n} replace_node call sites found (4 confirmed)')
